@@ -305,6 +305,7 @@ func (s *Swarm) Gossip() (complete mesh.GossipData) {
 // OnGossip merges received data into state and returns "everything new I've just
 // learnt", or nil if nothing in the received data was new.
 func (s *Swarm) OnGossip(buf []byte) (delta mesh.GossipData, err error) {
+	defer recoverPayload(&err)
 	if len(buf) <= 1 {
 		return nil, nil
 	}
@@ -318,6 +319,7 @@ func (s *Swarm) OnGossip(buf []byte) (delta mesh.GossipData, err error) {
 // OnGossipBroadcast merges received data into state and returns a representation
 // of the received data (typically a delta) for further propagation.
 func (s *Swarm) OnGossipBroadcast(src mesh.PeerName, buf []byte) (delta mesh.GossipData, err error) {
+	defer recoverPayload(&err)
 	if src == s.name {
 		logging.LogAction("merge", "got our own broadcast")
 		return
@@ -332,6 +334,7 @@ func (s *Swarm) OnGossipBroadcast(src mesh.PeerName, buf []byte) (delta mesh.Gos
 // OnGossipUnicast occurs when the gossip unicast is received. In emitter this is
 // used only to forward message frames around.
 func (s *Swarm) OnGossipUnicast(src mesh.PeerName, buf []byte) (err error) {
+	defer recoverPayload(&err)
 
 	// Decode an incoming message frame
 	frame, err := message.DecodeFrame(buf)
@@ -346,6 +349,16 @@ func (s *Swarm) OnGossipUnicast(src mesh.PeerName, buf []byte) (err error) {
 	}
 
 	return nil
+}
+
+// recoverPayload turns a panic raised while handling a payload received from a peer into
+// an error. The gossip goroutines have no recover of their own, a malformed payload would
+// otherwise take the whole process down instead of only its connection.
+func recoverPayload(err *error) {
+	if r := recover(); r != nil {
+		*err = fmt.Errorf("swarm: malformed payload: %v", r)
+		logging.LogError("swarm", "handling payload", *err)
+	}
 }
 
 // Notify notifies the swarm when an event is on/off.
